@@ -272,8 +272,10 @@ WALK_PATS = ['*', '**', '**/a', 'd/*', '*/', '.*', '**/.*', '[a-b]*', 'caf[\xe9]
              '@(a|b.a)', '!(a)', '**/*\xff', '{a,A}', 'a|A',
              # a non-ASCII byte in a directory segment; zero-segment results of a trailing globstar; doubled separators;
              # base-name matching through links
-             'l\xe9/*', '?\xe9/*/', '*\xe9/**', 'd/**', '*/**', 'd/**/', 'k/**', 'd//a', '*//', 'a', 'e']
-WALK_FLAGS = ['GE', 'GDE', 'GEK', 'GEBS', 'GEO', 'GEI', 'LEFX', 'GEXK', 'GEF']
+             'l\xe9/*', '?\xe9/*/', '*\xe9/**', 'd/**', '*/**', 'd/**/', 'k/**', 'd//a', '*//', 'a', 'e',
+             # exclusions only (a literal `!` without NEGATE; everything-except under NEGATEALL)
+             '!a', '!**/a', '!d/*']
+WALK_FLAGS = ['GE', 'GDE', 'GEK', 'GEBS', 'GEO', 'GEI', 'LEFX', 'GEXK', 'GEF', 'GENA', 'ENA']
 GLW = dict(GL, K=G.MARK, F=G.FOLLOW)
 
 
